@@ -80,7 +80,7 @@ fn strategy(_t: Tier) -> BoxedStrategy<Case> {
         .boxed()
 }
 
-fn run(c: &Case) -> Verdict {
+pub fn run(c: &Case) -> Verdict {
     let x = match load(c.fam, &c.f) {
         Ok(x) => x,
         Err(_) => return pass(false, vec!["skipped:unloadable".into()]),
